@@ -37,6 +37,9 @@ pub(crate) struct ConnRec {
     pub(crate) q_dropped: u64,
     pub(crate) pending_written: u64,
     pub(crate) q_pending: u64,
+    pub(crate) enq: u64,
+    pub(crate) sigs: u64,
+    pub(crate) in_flush_since_us: u64,
     pub(crate) cur: u8,
     pub(crate) quit: bool,
     pub(crate) ended: bool,
@@ -127,6 +130,7 @@ pub(crate) fn reset() {
 // a new connection got its ConnState (it holds a connection slot from now on)
 pub(crate) fn opened(conn_state: &mut ConnState, addr: &std::net::SocketAddr) {
     conn_state.verif_key = addr.to_string();
+    conn_state.user_state.verif_key = conn_state.verif_key.clone();
     let mut reg = REG.lock().unwrap();
     let mut rec = ConnRec::default();
     publish(&mut rec, conn_state);
@@ -159,6 +163,10 @@ pub(crate) fn before_flush(conn_state: &ConnState) {
     let mut reg = REG.lock().unwrap();
     if let Some(rec) = reg.conns.get_mut(&conn_state.verif_key) {
         rec.pending_written = n;
+        rec.in_flush_since_us = std::time::SystemTime::now()
+            .duration_since(std::time::UNIX_EPOCH)
+            .map(|d| d.as_micros() as u64)
+            .unwrap_or(1);
     }
 }
 
@@ -176,6 +184,7 @@ pub(crate) fn flushed(conn_state: &ConnState) {
     if let Some(rec) = reg.conns.get_mut(&conn_state.verif_key) {
         rec.written += rec.pending_written;
         rec.pending_written = 0;
+        rec.in_flush_since_us = 0;
         rec.q_done += rec.q_pending;
         rec.q_pending = 0;
         match rec.cur {
@@ -225,14 +234,24 @@ pub(crate) fn dropped(conn_state: &ConnState) {
     NOTIFY.notify_waiters();
 }
 
-// a line was put on some user's queue
-pub(crate) fn enq() {
+// a line was put on the queue of the connection with that key
+pub(crate) fn enq_to(key: &str) {
     ENQ.fetch_add(1, Ordering::SeqCst);
+    if let Ok(mut reg) = REG.lock() {
+        if let Some(rec) = reg.conns.get_mut(key) {
+            rec.enq += 1;
+        }
+    }
 }
 
-// a KILL/DIE signal was delivered to a connection's oneshot
-pub(crate) fn sig_sent() {
+// a KILL/DIE signal was delivered to the oneshot of the connection with that key
+pub(crate) fn sig_sent_to(key: &str) {
     SIG_SENT.fetch_add(1, Ordering::SeqCst);
+    if let Ok(mut reg) = REG.lock() {
+        if let Some(rec) = reg.conns.get_mut(key) {
+            rec.sigs += 1;
+        }
+    }
 }
 
 // seeded yield/sleep point placed where the state lock is released between
